@@ -14,7 +14,8 @@ pub const WFAMS: [&str; 6] = ["non_negative", "potentials", "negative_dag", "pla
 /// A weighted digraph with isize weights. Returns (model, weight family).
 pub fn gen_case(r: &mut Rng, max: usize, allow_neg_circuit: bool) -> (Model, &'static str, &'static str) {
     if r.below(64) == 0 {
-        return (gen::fixture_weighted(r), "repo_fixture_weighted", "repo_fixture_weighted");
+        let m = if r.chance(0.7) { gen::fixture_weighted_isize(r) } else { gen::fixture_weighted(r) };
+        return (m, "repo_fixture_weighted", "repo_fixture_weighted");
     }
     if r.below(40) == 0 {
         // Legal weights of magnitude 2^62: positions alternate between
